@@ -121,7 +121,7 @@ def try_refute(prop, v, repo, seed):
     if unit in ("S64", "S32"):
         r = refute_scalar(64 if unit == "S64" else 32, name, repo, seed)
         return r if r is not None else refute_papi(unit, name, repo, seed)
-    if unit in ("ED", "RIS", "MONT", "SG", "SGR", "SM", "SIG", "FG"):
+    if unit in ("ED", "RIS", "MONT", "SG", "SGR", "SM", "SM2", "SIG", "FG", "GRP"):
         return refute_papi(unit, name, repo, seed)
     return None
 
@@ -336,7 +336,7 @@ def refute_papi(unit, fn, repo, seed):
         reqs.append(rq); exps.append(ex)
 
     fams = {"ED": ["ed"], "RIS": ["ris"], "MONT": ["mont"], "SG": ["sc"], "S64": ["sc"], "S32": ["sc"], "SGR": ["sc", "edmul"], "SM": ["edmul"],
-            "SIG": ["sig"], "FG": ["ed", "ris"], "F64": ["ed"], "F32": ["ed"]}.get(unit, ["ed", "ris", "mont", "sc", "edmul", "sig"])
+            "SIG": ["sig", "slices"], "GRP": ["grp", "ed", "ris"], "FG": ["ed", "ris"], "F64": ["ed"], "F32": ["ed"]}.get(unit, ["ed", "ris", "mont", "sc", "edmul", "sig", "slices", "grp"])
     valid_pts = []
     for b in encs:
         a = O.ed_decode(b)
@@ -472,6 +472,32 @@ def refute_papi(unit, fn, repo, seed):
                     add("%s %s %s %s" % (op, _h(pkT), _h(sg0), _h(b"m")), "BADKEY" if r == "BADKEY" else ("1" if r else "0"))
             add("sig.keypair_import %s" % _h(sd + pk), "1")
             add("sig.keypair_import %s" % _h(sd + O.public_key(bytes([9]) * 32)), "0")
+    if "slices" in fams or "ed" in fams or "ris" in fams:
+        good_pk = O.public_key(bytes([7]) * 32)
+        for n in (0, 1, 31, 32, 33, 63, 64, 65, 80):
+            b = (good_pk * 3)[:n]
+            add("sig.vk_try_from %s" % _h(b), _h(b) if n == 32 else "ERR")
+            add("sig.sk_try_from %s" % _h(b), _h(b) if n == 32 else "ERR")
+            add("sig.sig_from_slice %s" % _h(b), _h(b) if n == 64 else "ERR")
+            add("sig.esk_from_slice %s" % _h(b), "OK" if n == 64 else "ERR")
+            add("ed.from_slice %s" % _h(b), _h(b) if n == 32 else "ERR")
+            add("ris.from_slice %s" % _h(b), _h(b) if n == 32 else "ERR")
+    if "grp" in fams:
+        for (b1, a1) in valid_pts[:40]:
+            tf = 1 if O.ed_mul(O.L, a1) == O.ID else 0
+            add("grp.ed %s" % _h(b1), "%d %d %s %s" % (tf, tf, _h(O.ed_encode(O.ed_mul(8, a1))), _h(O.ed_encode(a1))))
+        for b in encs:
+            d = O.r255_decode(b)
+            add("grp.ris_from_bytes %s" % _h(b), "NONE" if d is None else _h(O.r255_encode(d)))
+        for sv in _scalars(rng, 4):
+            b = (sv % 2**256).to_bytes(32, "little")
+            v = sv % 2**256
+            r = v % O.L
+            add("grp.scalar %s" % _h(b), "%s %d %d %d" % ("NONE" if r == 0 else _h(pow(r, O.L - 2, O.L).to_bytes(32, "little")), 1 if v < O.L else 0, 1 if v < O.L else 0, r & 1))
+        t = (O.L - 1) // 4
+        rou = pow(2, t, O.L)
+        add("grp.consts", "%s %s %s %s %s" % (_h(rou.to_bytes(32, "little")), _h(pow(rou, O.L - 2, O.L).to_bytes(32, "little")), _h(pow(2, O.L - 2, O.L).to_bytes(32, "little")),
+                                            _h((16).to_bytes(32, "little")), _h((2).to_bytes(32, "little"))))
     got = _ask(binary, reqs)
     if len(got) != len(reqs):
         return None
